@@ -46,7 +46,24 @@ def generators(ctx):
 
 
 def elf(ctx):
-    d = build.cmake_release([], tag="c18-elf", targets=("all",))
+    # the repository's own CMake build with each installed compiler driver (the assembler options are decided by the build rules, per driver),
+    # in the default (Release) and in the Debug build type, and with a forced C back end (where every .S file assembles to an empty object)
+    variants = [("gcc", [], "gcc"), ("clang", [], "clang")]
+    if ctx.thorough:
+        variants += [("gcc", ["-DCMAKE_BUILD_TYPE=Debug"], "gcc-debug"), ("clang", ["-DBACKEND_C32=ON"], "clang-c32"), ("gcc", ["-DBACKEND_GENERIC=ON", "-DCHECK_ACQUIRE_RELEASE=ON"], "gcc-generic-checker")]
+    for cc, opts, name in variants:
+        if not shutil.which(cc):
+            ctx.sample("ELF: compiler driver %s not installed, variant %s skipped" % (cc, name))
+            continue
+        try:
+            d = build.cmake_release(opts, tag="c18-elf", cc=cc, targets=("all",))
+        except build.BuildError as e:
+            ctx.fail("build-error:cmake-" + name, str(e)[-400:])
+            continue
+        elf_one(ctx, d, name)
+
+
+def elf_one(ctx, d, variant):
     targets = [os.path.join(d, "src", "libascon.so"), os.path.join(d, "apps", "asconcrypt", "asconcrypt"), os.path.join(d, "apps", "asconsum", "asconsum")]
     targets += sorted(glob.glob(os.path.join(d, "test", "unit", "test-*")))[:4] + sorted(glob.glob(os.path.join(d, "test", "kat", "kat*")))[:2]
     for tg in targets:
@@ -57,17 +74,17 @@ def elf(ctx):
         ctx.stat("nontrivial")
         gs = [l for l in out.splitlines() if "GNU_STACK" in l]
         if not gs:
-            ctx.fail("elf:no-gnu-stack:" + os.path.basename(tg), "no PT_GNU_STACK header (stack executable by default)")
+            ctx.fail("elf:no-gnu-stack:%s%s" % (os.path.basename(tg), "" if variant == "gcc" else ":" + variant), "no PT_GNU_STACK header (stack executable by default)")
         elif "E" in gs[0].split()[-2]:
-            ctx.fail("elf:executable-stack:" + os.path.basename(tg), "PT_GNU_STACK flags %s: the object forces an executable stack" % gs[0].split()[-2])
+            ctx.fail("elf:executable-stack:%s%s" % (os.path.basename(tg), "" if variant == "gcc" else ":" + variant), "PT_GNU_STACK flags %s: the object forces an executable stack (CMake build with %s)" % (gs[0].split()[-2], variant))
     # every object assembled from a .S file must carry .note.GNU-stack
     objs = glob.glob(os.path.join(d, "src", "CMakeFiles", "ascon_static.dir", "*", "*.S.o"))
     for o in objs:
         out = subprocess.run(["readelf", "-SW", o], stdout=subprocess.PIPE).stdout.decode()
         ctx.stat("evaluations")
         if ".note.GNU-stack" not in out:
-            ctx.fail("elf:object-without-stack-note:" + os.path.basename(o), "assembled object has no .note.GNU-stack section, so the linker marks the stack executable")
-    ctx.sample("ELF: PT_GNU_STACK of libascon.so, the tools and test programs from the repository's own CMake build; .note.GNU-stack of %d assembled objects" % len(objs))
+            ctx.fail("elf:object-without-stack-note:%s%s" % (os.path.basename(o), "" if variant == "gcc" else ":" + variant), "assembled object has no .note.GNU-stack section, so the linker marks the stack executable (CMake build with %s)" % variant)
+    ctx.sample("ELF (%s): PT_GNU_STACK of libascon.so, the tools and test programs from the repository's own CMake build; .note.GNU-stack of %d assembled objects" % (variant, len(objs)))
 
 
 def entry_point_census(ctx):
